@@ -232,7 +232,7 @@ func c09Run(cs *c09One, replay bool) c09Outcome {
 		refs    = map[string]opResult{}
 		nops    int
 	)
-	res := simrt.Run(simrt.Config{Budget: 30_000_000, Chooser: ch, RecordSwitchPairs: 4096}, func() {
+	res := simrt.Run(simrt.Config{Budget: 30_000_000, Chooser: ch, RecordSwitchPairs: 4096, TraceLog: os.Getenv("VERIF_DEBUG") == "2"}, func() {
 		// ---- set-up, as a server does at start-up: ordinary happens-before to the client tasks
 		cc, err := sut.Compile(cs.Bundle)
 		if err != nil {
@@ -562,6 +562,14 @@ func C09(c *wk.Ctx) {
 				u.Hash("switch_site_pair", uint64(uint32(p[0]))<<32|uint64(uint32(p[1])))
 			}
 			unitDigest = unitDigest*1099511628211 ^ o.res.TraceHash ^ uint64(o.res.Steps)
+			if os.Getenv("VERIF_DEBUG") == "2" && fmt.Sprintf("%d.%d", run, i) == os.Getenv("VERIF_DEBUG_RUN") {
+				for _, t := range o.res.Trace {
+					fmt.Fprintf(os.Stderr, "T %d %s -> %d @%d\n", t[0], SiteName(int(t[1])), t[2], t[3])
+				}
+			}
+			if os.Getenv("VERIF_DEBUG") != "" {
+				fmt.Fprintf(os.Stderr, "run %d.%d trace=%x steps=%d switches=%d tasks=%d sched=%+v cat=%d\n", run, i, o.res.TraceHash, o.res.Steps, o.res.Switches, o.res.Tasks, cs.Sched, cs.CatKind)
+			}
 			if i == 0 {
 				u.Sample(1, map[string]interface{}{"tasks": cs.Tasks, "sched": cs.Sched, "obligatory": cs.Obligatory, "steps": o.res.Steps, "switches": o.res.Switches,
 					"first_file": trunc(cs.Bundle.Files[0].Source(), 300)})
